@@ -25,7 +25,8 @@ CHARS = ["0", "1", "7", "9", "a", "e", "f", "x", "o", "b", "p", "_", ".", "+", "
 LITS = ["'a'", "'\\n'", "'\\t'", "'\\\\'", "'\\''", "'\\\"'", "'\\x41'", "'\\u00e9'", "'\\U0001F600'", "'\\101'", "'\\0'", "'\\a'", "'\\b'", "'\\f'",
         "'\\r'", "'\\v'", "'é'", "'世'", "''", "'ab'", "'\\q'", "'\\xZZ'", "'\\x4'", "'\\400'", "'\\ud800'", "'\\U00110000'", "'\\u12'", "'\\8'", "'\\18'",
         '"abc"', '""', '"a\\nb"', '"\\x41\\u00e9\\U0001F600\\101"', '"\\\'"', '"\\""', '"é世"', '"\\q"', '"\\xZ"', '"\\ud800"', '"\\400"', '"a\\', '"tab\\there"',
-        "`raw\\n`", "`a\nb`", "``", '`"hi"`', '`x = "y"`', '`"`', '`""`', '`a"`', '`"a`', '"`a`"', '"`"', '"a`"', '"`a"', "`'`", '"\'"', "'\"'", "'`'", '"\\a\\b\\f\\r\\v\\t"', '"\\377"', '"\\xff\\xfe"', "'\\xff'", "'\\377'"]
+        "`raw\\n`", "`a\nb`", "``", '`"hi"`', '`x = "y"`', '`"`', '`""`', '`a"`', '`"a`', '"`a`"', '"`"', '"a`"', '"`a"', "`'`", '"\'"', "'\"'", "'`'", '"ab\\U00110000cd"', '"\\U0000D800"', '"\\UFFFFFFFF"', '"\\U0010FFFF"', '"\\uDFFF"', '"\\u00"', '"\\U0001F60"', '"\\x"', '"\\8"',
+        "`\\U00110000`", '"a\\400b"', '"\\777"', '"\\a\\b\\f\\r\\v\\t"', '"\\377"', '"\\xff\\xfe"', "'\\xff'", "'\\377'"]
 
 
 def run(ck):
@@ -107,6 +108,14 @@ def run(ck):
             rt.append(p)
     for p in rt:
         cases.append({"id": len(cases), "kind": "roundtrip", "s": p["src"]})
+    # every token that can begin an expression also begins an expression statement, at top level, in a block, in a function body,
+    # after another statement on the same line, and as the last statement without a newline
+    starts = ["-x", "+x", "!x", "^x", "(x)", "[1, 2]", '"s"', "`r`", "'c'", "1", "1.5", "x", "x.y", "x[0]", "f()", "func() {}()", "undefined", "true", "false",
+              "error(1)", "immutable([])", 'import("m")', "x ? 1 : 2", "- -x", "^-x", "!f()", "x++", "x--", "x += 1", "x, y = 1, 2"]
+    for st in starts:
+        for tmpl in ("%s\n", "y := 0\n%s\n", "if true {\n  %s\n}\n", "f := func() {\n  %s\n  return 1\n}\n", "for {\n  %s\n  break\n}\n", "y := 0; %s\n", "%s", "y := 0\n%s // c\n",
+                     "if y := 1; y { %s }\n", "if true { %s } else { %s }\n"):
+            cases.append({"id": len(cases), "kind": "parses", "s": tmpl.replace("%s", st)})
     # hand-written sources for the printer: nested unary operators of the same and of different sign, with and without parentheses,
     # literals whose spelling matters, every statement kind once
     unary_srcs = []
@@ -125,7 +134,7 @@ def run(ck):
     res = vlib.run_cases(ck, "syntax", cases, nproc=12)
     # numbers outside the TLC alphabet: Go is the oracle for classification as well
     extra_res = vlib.run_cases(ck, "syntax", [{"id": i, "kind": "num", "s": s} for i, s in enumerate(extra_nums)], nproc=2)
-    stats = {"tree": 0, "treectx": 0, "semi": 0, "num": 0, "lit": 0, "roundtrip": 0}
+    stats = {"tree": 0, "treectx": 0, "parses": 0, "semi": 0, "num": 0, "lit": 0, "roundtrip": 0}
     spec_vs_go = 0
     for c in cases:
         o = res[c["id"]]
@@ -138,6 +147,10 @@ def run(ck):
             if o.get("err") or o["got"] != o["want"]:
                 ck.violation("grouping:" + outer_op(c), "%r is grouped as %s, the documented precedence/associativity gives %s" % (
                     " ".join(c["min"]), o.get("got") or o.get("err"), o.get("want", "".join(c["full"]))), {"case": c, "real": o})
+                continue
+        elif k == "parses":
+            if o.get("err"):
+                ck.violation("statement-rejected:" + c["s"].strip().split("\n")[-1].split(" ")[0][:12], "a statement the grammar allows is rejected: %s\n%s" % (o["err"].split("\n")[0], c["s"]), {"case": c, "real": o})
                 continue
         elif k == "treectx":
             if o.get("skip"):
